@@ -155,7 +155,7 @@ def _expr_disc(syn, fr, mult, tick):
   """only the parameters that the syntax depends on"""
   d = f"syntax={syn}"
   if syn in ("clock-frames", "f"):
-    d += f",frameRate={'-' if fr is None else 'set'},mult={'-' if mult is None else 'set'}"
+    d += f",frameRate={'-' if fr is None else 'malformed' if isinstance(fr, str) else 'set'},mult={'-' if mult is None else 'set'}"
   elif syn == "t":
     d += f",tickRate={'-' if tick is None else 'set'}"
   return d
@@ -163,10 +163,12 @@ def _expr_disc(syn, fr, mult, tick):
 
 def fam_expr():
   cases = []
-  for fr in (None, 24, 25, 30):
+  for fr in (None, 24, 25, 30, "abc", "0", "25.0"):
     for mult in (None, "1000 1001"):
       for tick in (None, "1", "10000000"):
-        for syn, vals in expr_values(fr or 30):
+        for syn, vals in expr_values(fr if isinstance(fr, int) else 30):
+          if isinstance(fr, str) and syn not in ("t", "f", "clock-frames"):
+            continue                       # a malformed ttp:frameRate is ignored: only the syntaxes that could depend on it
           for v in vals:
             for pos in ("begin", "end", "dur"):
               cases.append((fr, mult, tick, syn, v, pos))
@@ -180,7 +182,33 @@ def fam_expr():
     xml = tt(el("body", {"xml:lang": "n0"}, [el("div", {"xml:lang": "n1"}, [el("p", pa, ["x"])])]), a)
     default_tick = syn == "t" and tick is None
     return {"xml": xml, "area": "expr", "clause": "C04.time.tickrate.default" if default_tick else "C04.time.expr",
-            "d": f"frameRate={'-' if fr is None else 'set'}" if default_tick else _expr_disc(syn, fr, mult, tick)}
+            "d": f"frameRate={'-' if fr is None else 'malformed' if isinstance(fr, str) else 'set'}" if default_tick else _expr_disc(syn, fr, mult, tick)}
+  return len(cases), decode
+
+
+# ---------------------------------------------------------------------------------------------------
+# F-refsep: the style attribute is an xs:IDREFS list: any XML white space separates, leading and trailing white space is allowed
+
+REF_SEPS = [("space", " "), ("two-spaces", "  "), ("tab", "@@9@@"), ("lf", "@@10@@"), ("cr", "@@13@@"), ("tab-space", "@@9@@ ")]
+
+
+def fam_refsep():
+  cases = [(sn, sep, order, pad, where) for sn, sep in REF_SEPS for order in (("s1", "s2"), ("s2", "s1")) for pad in ("", "lead", "trail")
+           for where in ("p", "style")]
+
+  def decode(i):
+    sn, sep, order, pad, where = cases[i]
+    lst = sep.join(order)
+    lst = (" " + lst) if pad == "lead" else (lst + " ") if pad == "trail" else lst
+    st = [el("style", {"xml:id": "s1", "tts:color": "red", "tts:fontStyle": "italic"}),
+          el("style", {"xml:id": "s2", "tts:color": "blue", "tts:fontWeight": "bold"})]
+    if where == "style":
+      st.append(el("style", {"xml:id": "s3", "tts:textAlign": "center", "style": lst}))
+    body = el("body", None, [el("div", None, [el("p", {"xml:lang": "tg", "style": lst if where == "p" else "s3"}, ["x"])])])
+    xml = tt(head("".join(st), "") + body)
+    for n in ("9", "10", "13"):
+      xml = xml.replace(f"@@{n}@@", f"&#{n};")
+    return {"xml": xml, "area": "graph", "clause": "C04.style.refsep", "d": f"sep={sn},pad={pad or '-'},where={where}", "cyclic": False, "key": None}
   return len(cases), decode
 
 
